@@ -133,6 +133,7 @@ class C13(Check):
                     bl.bump(st, 'unit:spilled' if res['spill'] else 'unit:in-memory')
             else:
                 ops = rng.choice([['B'], ['S'], ['B', 'S'], ['S', 'B'], ['S', 'S'], ['P1', 'S', 'I'], ['?B', 'B'], ['?S', 'B'],
+                                  ['K', 'B'], ['K', 'S'], ['K', '?B', '?S'], ['K', 'P2', 'B', 'I'],
                                   ['?B', '?S', 'I'], ['?S', '?S', '?B']])
                 te = 'chunked' if chunked else None
                 clh = None if cl < 0 else str(cl)
@@ -195,6 +196,20 @@ class C13(Check):
                 off = excess_offset(enc, maxb) if maxb is not None else None
             r = bl.run_read(raw, sched, buf, cl, kind == 'chunked', maxb)
             w = bl.run_wsgi('@', buf, maxb, clh, te, raw, sched, ['B'])
+            # the limits are the application's: the same read through request.copy() (taken before the body was
+            # touched) answers alike - status, bytes, storage, how far the stream was read
+            wc = bl.run_wsgi('@', buf, maxb, clh, te, raw, sched, ['K', 'B'])
+            if (wc['status'], wc['outs'][1:], wc['maxoff']) != (w['status'], w['outs'], w['maxoff']):
+                return (f'{kind}:copy-differs', f'{n} bytes, max_body_size {maxb}, max_memfile_size {buf}: through request.copy() '
+                        f'{wc["status"]} {wc["outs"][1:]!r:.60} maxoff {wc["maxoff"]}, through the request {w["status"]} maxoff {w["maxoff"]}')
+            if kind == 'chunked' and maxb is not None:
+                # a small Content-Length next to Transfer-Encoding: chunked changes nothing: the chunked payload is policed
+                for small in {'0', str(min(maxb, 3))}:
+                    wb = bl.run_wsgi('@', buf, maxb, small, te, raw, sched, ['B'])
+                    if (wb['status'], wb['outs'], wb['maxoff']) != (w['status'], w['outs'], w['maxoff']):
+                        return ('chunked:content-length-changes-policing',
+                                f'{n}-byte chunked payload, max_body_size {maxb}: with Content-Length {small} status {wb["status"]} '
+                                f'maxoff {wb["maxoff"]}, without {w["status"]} maxoff {w["maxoff"]}')
             if maxb is not None and n > maxb:
                 if r['ok'] or r['err'] != 'BodySizeError':
                     return f'{kind}:oversize-not-rejected', f'{n} bytes against max_body_size {maxb}: _body_read gave {r["err"] or "a body"}'
@@ -231,6 +246,18 @@ class C13(Check):
             raw, te, clh = payload, None, str(n)
         w = bl.run_wsgi('@', buf, maxb, clh, te, raw, sched, [op], ctype=ctype)
         expect = c['expect']
+        if expect == 'refused-or-not-loaded':
+            if w['status'] == 200 and w['info'].get('longest_text', 0) > buf:
+                return (f'{kind}:text-over-threshold-loaded', f'{c["what"]}: answered 200 with a {w["info"]["longest_text"]}-byte '
+                        f'string in forms/POST/params')
+            if w['status'] not in (200, 413):
+                return f'{kind}:status', f'{c["what"]}: WSGI answered {w["status"]}'
+        # the same access through request.copy() taken before the body was touched: same answer
+        wc = bl.run_wsgi('@', buf, maxb, clh, te, raw, sched, ['K', op], ctype=ctype)
+        if (wc['status'], wc['outs'][1:], wc['info'].get('longest_text'), wc['maxoff']) != \
+                (w['status'], w['outs'], w['info'].get('longest_text'), w['maxoff']):
+            return (f'{kind}:copy-differs', f'{c["what"]}: through request.copy() status {wc["status"]} outs {wc["outs"][1:]} '
+                    f'maxoff {wc["maxoff"]}, through the request itself {w["status"]} {w["outs"]} {w["maxoff"]}')
         if kind in ('urlencoded', 'json'):
             # "refused rather than loaded": the text accessor never pulls more than threshold + 1 bytes
             wm = bl.run_wsgi('@', buf, maxb, clh, te, raw, sched, ['?M'], ctype=ctype)
@@ -287,7 +314,7 @@ class C13(Check):
             sched = rng.choice([[], [7, 64, 1] * 30, [200]])
             bnd = rng.choice([b'bnd', b'----WebKitFormBoundaryX1'])
             ctype = 'multipart/form-data; boundary=' + bnd.decode()
-            kind = rng.randrange(8)
+            kind = rng.randrange(12)
             if kind == 0:      # small text fields + a file part far over the threshold
                 fdata = bl.gen_payload(rng, mem * rng.choice([1, 2, 3]) + rng.randint(1, 50))
                 body = multipart(bnd, [(b't', None, b'hello'), (b'f', b'up.bin', fdata)])
@@ -333,6 +360,17 @@ class C13(Check):
                            op=rng.choice('UF'), ctype=ctype, expect='refused' if kind == 6 else 'accepted',
                            what=f'multipart: {nfiles} file parts interleaved with text fields, header blocks and text '
                                 f'need {need} bytes in memory, max_memfile_size {mem}')
+            elif kind in (8, 9, 10):   # a part with an EMPTY file name (`filename=""`) carrying data over / under the threshold
+                over = kind != 10
+                val = (b'E' * (mem + rng.choice([1, 30, mem]))) if over else b'e' * rng.randint(0, 40)
+                parts = [(b'e', b'', val)]
+                if kind == 9 or rng.random() < .5:     # mixed with ordinary text fields and uploads
+                    parts = [(b'a', None, b'one'), (b'e', b'', val), (b'f', b'up.bin', bl.gen_payload(rng, 70)), (b'z', None, b'last')]
+                    rng.shuffle(parts)
+                body = multipart(bnd, parts)
+                yield dict(probe='multipart', boundary=bnd.hex(), max=None, buf=mem, payload=body.hex(), chunked=ch, sched=sched,
+                           op='Y', ctype=ctype, expect='refused-or-not-loaded' if over else 'accepted',
+                           what=f'multipart: part with filename="" carrying {len(val)} bytes, max_memfile_size {mem}')
             else:              # everything small
                 body = multipart(bnd, [(b'a', None, b'1'), (b'b', None, b'two')])
                 yield dict(probe='multipart', boundary=bnd.hex(), max=None, buf=mem, payload=body.hex(), chunked=ch, sched=sched, op='F',
